@@ -119,7 +119,7 @@ pub fn run(ctx: &mut Ctx) {
     crate::reference::mappings::self_check(&mut srng, 500);
     crate::reference::metro::self_check(&mut srng);
 
-    let total = ctx.size(150_000, 6_000_000);
+    let total = ctx.size(600_000, 6_000_000);
     for n in ctx.cases("maps", total) {
         let mut rng = ctx.begin("maps", n);
         one(ctx, "maps", n, &mut rng, false);
